@@ -6,7 +6,7 @@
 
 namespace osmium {
 
-enum class item_type : unsigned short { undefined = 0, node = 1, way = 2, relation = 3 };
+enum class item_type : unsigned short { undefined = 0, node = 1, way = 2, relation = 3, changeset = 5 };
 
 struct unknown_type : public std::runtime_error {
     unknown_type() : std::runtime_error("unknown item type") {}
@@ -93,6 +93,13 @@ class Relation : public OSMObject {
 public:
     static constexpr item_type itemtype = item_type::relation;
     constexpr static bool is_compatible_to(item_type t) noexcept { return t == itemtype; }
+};
+
+class Changeset : public OSMEntity {
+public:
+    static constexpr item_type itemtype = item_type::changeset;
+    // K1: range test that also admits relation (and OSMEntity above forgets changeset)
+    constexpr static bool is_compatible_to(item_type t) noexcept { return t >= item_type::relation; }
 };
 
 namespace handler {
